@@ -18,7 +18,19 @@ def layout(rng, idx):
     """One crate layout: returns (manifest_dir, file_string, true_path, decoys)."""
     root = os.path.join(fsroot(), "l%d" % idx)
     ws = [rng.choice(NAMES) for _ in range(rng.randint(0, 2))]
-    kind = rng.choice(["single", "flat", "nested", "nested", "outside_rel", "outside_abs", "shared_up"])
+    kind = rng.choice(["single", "flat", "nested", "nested", "outside_rel", "outside_abs", "shared_up", "name_prefix"])
+    if kind == "name_prefix":
+        # a single package whose directory NAME is a proper string prefix (or the file's first component a prefix of it) of the first
+        # component of file!() - `proj/test` with `tests/it.rs` - and a sibling directory that has a file of the same relative name
+        # (`proj/tests/it.rs`): an overlap found on the strings instead of on the components reads the sibling
+        first = rng.choice(["tests", "src", "benches", "examples"])
+        pkg = rng.choice([first[:-1], first[:3], first + "x", first[0]])
+        rest = [rng.choice(FILES)]
+        wsdir = os.path.join(root, *ws) if ws else root
+        manifest = os.path.join(wsdir, pkg)
+        file_string = "/".join([first] + rest)
+        true_path = os.path.join(manifest, first, *rest)
+        return "single", manifest, file_string, true_path, [os.path.join(wsdir, first, *rest), os.path.join(wsdir, pkg + first[len(pkg):], *rest)]
     if kind == "single":
         member = []
     elif kind == "flat":
@@ -58,11 +70,20 @@ def layout(rng, idx):
 
 
 def candidates(manifest, file_string):
+    """the files that (manifest dir, file!()) can denote: file!() is relative to the workspace root, the manifest dir is that root followed by
+    the member's path, and the member's path is how file!() begins - so an ancestor A of the manifest dir is a possible root only if the
+    COMPONENTS of the manifest dir below A are the first components of file!() (whole components: `test` is not the beginning of `tests`);
+    the manifest dir itself is always possible (a single package, a path dependency)"""
+    if file_string.startswith("/"):
+        return [file_string]
     comps = [c for c in manifest.split("/") if c]
+    fcomps = [c for c in file_string.split("/") if c]
     out = []
     for k in range(len(comps) + 1):
-        base = "/" + "/".join(comps[:k])
-        out.append(file_string if file_string.startswith("/") else (base.rstrip("/") + "/" + file_string))
+        below = comps[k:]
+        if below == fcomps[:len(below)] or k == len(comps):
+            base = "/" + "/".join(comps[:k])
+            out.append(base.rstrip("/") + "/" + file_string)
     return out
 
 
